@@ -43,33 +43,33 @@ Theorem filter_for_version_sound : forall s v,
   In s all_suites -> In v all_versions -> chk_ffv s v = true.
 Proof. exact ffv_lifted. Qed.
 
-(* cipherNames=[w] / keyExchangeNames=[w] admit exactly the suites whose name denotes w *)
-Theorem settings_cipher_kx_words_match : forall s v,
+(* cipherNames=[w] / macNames=[w] / keyExchangeNames=[w] admit exactly the suites whose name denotes w
+   ("aead" is the MAC word of AEAD suites; TLS 1.3 suites are tied to no key-exchange word) *)
+Theorem settings_words_match : forall s v,
   In s all_suites -> In v all_versions -> negotiable s v = true ->
-  chk_cipher_words s v = true /\ chk_kx_words s v = true.
-Proof. exact L_cipher_kx_words. Qed.
+  chk_cipher_words s v = true /\ chk_mac_words s v = true /\ chk_kx_words s v = true.
+Proof. exact L_settings_words. Qed.
 
-(* getCipherName() *)
-Theorem cipher_accessor_matches : forall s v,
-  In s all_suites -> In v all_versions -> negotiable s v = true -> chk_cipher_accessor s = true.
-Proof. exact L_cipher_accessor. Qed.
+(* getCipherName() is the cipher word of the name; getMacName() is the HMAC word of the name, and
+   None (or "aead") for an AEAD suite *)
+Theorem accessors_match : forall s v,
+  In s all_suites -> In v all_versions -> negotiable s v = true ->
+  chk_cipher_accessor s = true /\ chk_mac_accessor s = true.
+Proof. exact L_accessors. Qed.
 
-(* FULL STATEMENTS that are false today (accessors_match for getMacName, list membership =
-   meaning, macNames=[w] admits exactly the suites with that MAC, lists_partition):
+(* membership in each of the library's *Suites lists equals the stated meaning of that list
+   (Model/C20_Classify.v list_semantics) evaluated on the parsed name *)
+Theorem list_membership_matches_name : forall s v,
+  In s all_suites -> In v all_versions -> negotiable s v = true -> chk_lists s = true.
+Proof. exact L_lists. Qed.
 
-     forall s v, In s all_suites -> In v all_versions -> negotiable s v = true ->
-       chk_mac_accessor s = true /\ chk_lists s = true /\ chk_mac_words s v = true /\ chk_partition s = true
+(* every negotiable suite is in exactly one cipher list, one MAC list (sha/sha256/sha384/md5/aead),
+   one key-exchange list and one version list *)
+Theorem lists_partition : forall s v,
+  In s all_suites -> In v all_versions -> negotiable s v = true -> chk_partition s = true.
+Proof. exact L_partition. Qed.
 
-   refuted at s = 163 = 0x00A3 TLS_DHE_DSS_WITH_AES_256_GCM_SHA384, v = 3 (TLS 1.2): the suite
-   is in sha384Suites and in aeadSuites. *)
-Theorem mac_classification_refuted : exists s v,
-  In s all_suites /\ In v all_versions /\ negotiable s v = true /\
-  chk_mac_accessor s = false /\ chk_lists s = false /\ chk_mac_words s v = false /\ chk_partition s = false.
-Proof. exact L_refuted. Qed.
-
-(* proved part: everything except that one suite.  Missing for the full statement: 163 must
-   leave sha384Suites (proposed_fixes/C20-1.diff) *)
-Theorem mac_classification_partial : forall s v,
-  In s all_suites -> In v all_versions -> negotiable s v = true -> s <> 163 ->
-  chk_mac_accessor s = true /\ chk_lists s = true /\ chk_mac_words s v = true /\ chk_partition s = true.
-Proof. exact L_partial. Qed.
+(* History: until /repo commit "fix: AEAD suites 0x00A3/0x00A5 must not be listed as HMAC-SHA384
+   suites" the MAC parts of the last four theorems were refuted at s = 163 = 0x00A3
+   TLS_DHE_DSS_WITH_AES_256_GCM_SHA384, v = 3 (in sha384Suites and in aeadSuites); this file then
+   held mac_classification_refuted (that witness) and mac_classification_partial (s <> 163). *)
